@@ -44,6 +44,12 @@ type Case struct {
 	Suffix evid.BStr `json:"suffix"`
 	Pipe   string    `json:"pipe"` // "", " | urlquery", " | html", " | print"
 	Data   evid.BStr `json:"data"`
+	// Mode: how the static prefix is written. "" plain; "same" {{if .C}}P{{else}}P{{end}}; "hidden" {{if .C}}{{else}}P{{end}};
+	// "nested" {{if .C}}P{{else}}{{if .D}}P{{else}}P2{{end}}{{end}}; "nestedhidden" {{if .C}}{{else}}{{if .D}}{{else}}P{{end}}{{end}}
+	Mode    string    `json:"mode,omitempty"`
+	Prefix2 evid.BStr `json:"prefix2,omitempty"`
+	C       bool      `json:"c,omitempty"`
+	D       bool      `json:"d,omitempty"`
 }
 
 func ctxByID(id string) *attrCtx {
@@ -55,8 +61,44 @@ func ctxByID(id string) *attrCtx {
 	return nil
 }
 
+func (c Case) prefixText() string {
+	p, p2 := string(c.Prefix), string(c.Prefix2)
+	switch c.Mode {
+	case "same":
+		return "{{if .C}}" + p + "{{else}}" + p + "{{end}}"
+	case "hidden":
+		return "{{if .C}}{{else}}" + p + "{{end}}"
+	case "nested":
+		return "{{if .C}}" + p + "{{else}}{{if .D}}" + p + "{{else}}" + p2 + "{{end}}{{end}}"
+	case "nestedhidden":
+		return "{{if .C}}{{else}}{{if .D}}{{else}}" + p + "{{end}}{{end}}"
+	}
+	return p
+}
+
+// effective returns the static prefix that is actually rendered for the branch choices.
+func (c Case) effective() Case {
+	e := c
+	e.Mode, e.Prefix2 = "", ""
+	switch c.Mode {
+	case "hidden":
+		if c.C {
+			e.Prefix = ""
+		}
+	case "nested":
+		if !c.C && !c.D {
+			e.Prefix = c.Prefix2
+		}
+	case "nestedhidden":
+		if c.C || c.D {
+			e.Prefix = ""
+		}
+	}
+	return e
+}
+
 func (c Case) template(cx *attrCtx) string {
-	return cx.Pre + c.Quote + string(c.Prefix) + "{{.V" + c.Pipe + "}}" + string(c.Suffix) + c.Quote + cx.Post
+	return cx.Pre + c.Quote + c.prefixText() + "{{.V" + c.Pipe + "}}" + string(c.Suffix) + c.Quote + cx.Post
 }
 
 // decodeAttr decodes static attribute text the way a browser does inside an attribute value.
@@ -248,13 +290,21 @@ func check0(c Case) evid.Outcome {
 	text := c.template(cx)
 	datum := string(c.Data)
 	o := evid.Outcome{}
+	if strings.Contains(string(c.Prefix2), c.Quote) || strings.Contains(string(c.Prefix2), "{{") {
+		return evid.Outcome{Skip: true}
+	}
+	if c.Mode != "" {
+		o.Labels = append(o.Labels, "conditional-prefix:"+c.Mode)
+	}
+	cond := c
+	c = c.effective() // the predicates below are about the prefix that is actually rendered
 	t, perr := tx.Parse(text)
 	if perr != nil {
 		o.Skip = true
 		o.Labels = append(o.Labels, "parse-error")
 		return o
 	}
-	out, err := tx.Exec(t, map[string]interface{}{"V": datum})
+	out, err := tx.Exec(t, map[string]interface{}{"V": datum, "C": cond.C, "D": cond.D})
 	why := mustReject(cx, c)
 	if err != nil {
 		o.Labels = append(o.Labels, "rejected")
@@ -282,7 +332,7 @@ func check0(c Case) evid.Outcome {
 			}
 		}
 	}
-	rb := htmltok.Tokenize([]byte(strings.Replace(strings.Replace(text, "{{.V"+c.Pipe+"}}", "zq", 1), "", "", 0)), htmltok.Options{})
+	rb := htmltok.Tokenize([]byte(strings.Replace(c.template(cx), "{{.V"+c.Pipe+"}}", "zq", 1)), htmltok.Options{})
 	if av == nil || strings.Join(htmltok.Skeleton(r), "") != strings.Join(htmltok.Skeleton(rb), "") || r.Final != rb.Final {
 		return evid.Viol("template %q data %q: output %q does not keep the tag structure", text, datum, out)
 	}
@@ -419,6 +469,11 @@ func gen(t *rapid.T) Case {
 	}
 	if c.Quote == `'` {
 		c.Prefix = evid.BStr(strings.ReplaceAll(string(c.Prefix), "'", ""))
+	}
+	if rapid.IntRange(0, 3).Draw(t, "condprefix") == 0 {
+		c.Mode = rapid.SampledFrom([]string{"same", "hidden", "nested", "nestedhidden"}).Draw(t, "mode")
+		c.C, c.D = rapid.Bool().Draw(t, "c"), rapid.Bool().Draw(t, "d")
+		c.Prefix2 = evid.BStr(rapid.SampledFrom([]string{"/p?x=", "/p/", "javascript:", "java", "/q#", "https://h/", "//evil.test/", "?", "x"}).Draw(t, "prefix2"))
 	}
 	return c
 }
